@@ -538,6 +538,13 @@ def run(chk):
     thorough = chk.tier == "thorough"
     common.translate_for(chk, ["repro"])
     chk.proof = common.prove("C10")
+    if thorough and chk.proof["rc"] == 0:
+        # independent re-check of the compiled proofs
+        with common.Lock("coq"):
+            rc, out = common.run(["coqchk", "-o", "-silent", "-Q", "theories", "Mos", "Mos.props.C10"], cwd=common.COQ, timeout=1500)
+        chk.extra["coqchk"] = {"rc": rc, "tail": out[-300:]}
+        if rc != 0:
+            chk.tie_break("coqchk", "coqchk rejects props/C10.vo: %s" % out[-800:])
     probe = Proc([common.build_probe()])
     try:
         model = Proc([common.build_model("c10")])
